@@ -260,6 +260,7 @@ class Interp:
         self.tops = []          # (reason, span)
         self.casts = []         # narrowing casts met: (from, to, term, span, fits)
         self.guards = []        # (cond term, span, 'assert'|'panic-arm')
+        self.log = []           # ordered events: ('guard', cond, sp) / ('mutate', what, sp)
         self.calls_seen = []    # inlined callee defs
         self.fresh = 0
         self.active_loops = set()
@@ -482,6 +483,7 @@ class Interp:
         return self.top('index %s into %r' % (show(idx), s))
 
     def seq_set(self, s, idx, v):
+        self.log.append(('mutate', 'index-store', None))
         s.stores.append((idx, v))
 
     def append_bytes(self, target, segs):
@@ -972,6 +974,7 @@ class Interp:
     def e_Assign(self, e):
         v = self.eval(e['rhs'])
         p = self.place(e['lhs'])
+        if e['lhs'].get('k') != 'Var' and not isinstance(p, IndexPlace): self.log.append(('mutate', 'assign', e.get('sp')))
         p.set(v)
         return UNIT
 
@@ -1003,6 +1006,7 @@ class Interp:
             return UNIT
         if self._diverges(e['then']) and c not in (TRUE, FALSE):
             self.guards.append({'cond': bnot(c), 'sp': e.get('cs') or e.get('sp'), 'kind': 'assert'})
+            self.log.append(('guard', bnot(c), e.get('cs') or e.get('sp')))
         return self.branch([(c, then), (TRUE, els)])
 
     def _diverges(self, e):
